@@ -8,6 +8,7 @@ import (
 	"math/big"
 	"sort"
 	"strings"
+	"sync"
 	"time"
 
 	"github.com/freeconf/yang/node"
@@ -267,6 +268,22 @@ func c15Scalar(s *schema.Node, stored string, got *jval, sc *c15Scenario, main s
 		if !((got.kind == 'n' && numEq(got.s, stored)) || (got.kind == 's' && got.s == stored)) {
 			return fmt.Sprintf("expected union value %q, found %c %q", stored, got.kind, got.s)
 		}
+	case "anydata":
+		want := stored
+		if strings.HasPrefix(stored, "@sel:") {
+			_, t, err := c15AnyTree(stored)
+			if err != nil {
+				return "harness: " + err.Error()
+			}
+			want = t.JSON()
+		}
+		w, _, err := jparse([]byte(want))
+		if err != nil {
+			return "harness: expected anydata value does not parse: " + err.Error()
+		}
+		if d := jsame(w, got, ""); d != "" {
+			return "anydata value differs from the stored one at " + d
+		}
 	case "empty":
 		if got.kind != 'a' || len(got.items) != 1 || got.items[0].kind != 'z' {
 			return fmt.Sprintf("expected [null] for an empty-typed leaf, found kind %c", got.kind)
@@ -275,6 +292,111 @@ func c15Scalar(s *schema.Node, stored string, got *jval, sc *c15Scenario, main s
 		return "harness: unknown type " + s.Type
 	}
 	return ""
+}
+
+// jsame compares two JSON values; object members as sets, numbers by value.
+func jsame(a, b *jval, at string) string {
+	if a.kind != b.kind {
+		return fmt.Sprintf("%s: kind %c vs %c", at, a.kind, b.kind)
+	}
+	switch a.kind {
+	case 'o':
+		if len(a.members) != len(b.members) {
+			return fmt.Sprintf("%s: %d vs %d members", at, len(a.members), len(b.members))
+		}
+		for _, m := range a.members {
+			var o *jval
+			n := 0
+			for _, x := range b.members {
+				if x.name == m.name {
+					o = x.v
+					n++
+				}
+			}
+			if n != 1 {
+				return fmt.Sprintf("%s: member %q occurs %d times", at, m.name, n)
+			}
+			if d := jsame(m.v, o, at+"/"+m.name); d != "" {
+				return d
+			}
+		}
+	case 'a':
+		if len(a.items) != len(b.items) {
+			return fmt.Sprintf("%s: %d vs %d items", at, len(a.items), len(b.items))
+		}
+		for i := range a.items {
+			if d := jsame(a.items[i], b.items[i], fmt.Sprintf("%s[%d]", at, i)); d != "" {
+				return d
+			}
+		}
+	case 'n':
+		if !numEq(a.s, b.s) {
+			return fmt.Sprintf("%s: number %s vs %s", at, a.s, b.s)
+		}
+	default:
+		if a.s != b.s {
+			return fmt.Sprintf("%s: %q vs %q", at, a.s, b.s)
+		}
+	}
+	return ""
+}
+
+// The tree behind an "@sel:<entries>:<string length>" anydata value: a small
+// schema of its own, compiled once.
+var (
+	c15AnyOnce sync.Once
+	c15AnyEnv  *sess.Env
+	c15AnyErr  error
+)
+
+func c15AnyTree(spec string) (*sess.Env, *model.Tree, error) {
+	c15AnyOnce.Do(func() {
+		leaf := func(n, t string) *schema.Node { return &schema.Node{Kind: schema.Leaf, Name: n, Type: t} }
+		m := &schema.Node{Kind: schema.Module, Name: "anyx", Children: []*schema.Node{
+			leaf("a", "string"),
+			{Kind: schema.Container, Name: "c", Children: []*schema.Node{leaf("b", "int32"), {Kind: schema.LeafList, Name: "ll", Type: "string"}}},
+			{Kind: schema.List, Name: "l", Keys: []string{"k"}, Children: []*schema.Node{leaf("k", "string"), leaf("v", "boolean")}},
+		}}
+		m.Link()
+		c15AnyEnv, c15AnyErr = sess.Compile(m)
+	})
+	if c15AnyErr != nil {
+		return nil, nil, c15AnyErr
+	}
+	var n, sl int
+	if _, err := fmt.Sscanf(spec, "@sel:%d:%d", &n, &sl); err != nil {
+		return nil, nil, fmt.Errorf("bad anydata selection spec %q", spec)
+	}
+	s := c15AnyEnv.S
+	t := model.New(s)
+	t.Leaf["a"] = strings.Repeat("x\"y\\", sl/4+1)[:sl]
+	c := model.New(s.Child("c"))
+	c.Leaf["b"] = fmt.Sprint(n)
+	c.LL["ll"] = []string{"p", "q q"}
+	t.Cont["c"] = c
+	if n > 0 {
+		l := &model.ListT{S: s.Child("l")}
+		for i := 0; i < n; i++ {
+			e := model.New(s.Child("l"))
+			e.Leaf["k"] = fmt.Sprintf("k%d", i)
+			e.Leaf["v"] = fmt.Sprint(i%2 == 0)
+			l.Entries = append(l.Entries, e)
+		}
+		t.List["l"] = l
+	}
+	return c15AnyEnv, t, nil
+}
+
+func init() {
+	mnode.AnySelection = func(spec string) (interface{}, error) {
+		env, t, err := c15AnyTree(spec)
+		if err != nil {
+			return nil, err
+		}
+		src := mnode.Tree(t)
+		src.ReadOnly = true
+		return *node.NewBrowser(env.Mod, src).Root(), nil
+	}
 }
 
 // c15Object checks the members of a JSON object against a model tree node.
@@ -447,6 +569,9 @@ func c15Gen(r *kit.Rng) *c15Scenario {
 	size := []int{0, 1, 1, 2, 2}[r.Intn(5)] // swarm knob: documents must straddle multiples of the writer's 4096-byte buffer
 	s := schema.GenerateRich(r, "m", []int{30, 60, 90}[size]+r.Intn(20), r.Range(2, 6))
 	schema.HostileEnums(r, s)
+	if r.Chance(1, 2) {
+		schema.AddAnydata(r, s)
+	}
 	o := model.GenOpts{Nasty: true, EmptyLL: true, MaxEntries: []int{2, 10, 25}[size], Density: []int{45, 75, 95}[size], KeyPool: 40}
 	t := model.Random(r, s, o.WithBudget([]int{60, 600, 1500}[size]), 0)
 	// the swarm knob must bite: a "large" document that came out small (an absent
@@ -525,7 +650,13 @@ func c15Explore(sc *c15Scenario, seed uint64, everyByte bool) (out RunOut, sampl
 			}
 			off += n
 		}
-		for i := 0; i < L; i += 97 {
+		// plus a stride over the whole document; long documents get a wider one
+		// (every byte is the thorough tier's business)
+		stride := 97
+		if L/80 > stride {
+			stride = L/80 | 1
+		}
+		for i := 0; i < L; i += stride {
 			pos[i] = true
 		}
 	}
